@@ -237,7 +237,8 @@ func refObs(rs engine.RefSlice, err error) string {
 	d := rs.Data()
 	b := rs.Bytes()
 	out := hx(cp(d))
-	if (d == nil) != (b == nil) || !bytes.Equal(d, b) {
+	// absence is signalled by Data() == nil (what the callers test); Bytes() only has to carry the same content
+	if !bytes.Equal(d, b) {
 		out += fmt.Sprintf("!Bytes()=%s", hx(b))
 	}
 	rs.Free()
